@@ -250,6 +250,9 @@ class C19(Property):
                     s += '(' + key + ')'
                 for _ in range(cs.small(4)):
                     s += cs.pick('#0- +')
+                    if cs.bool(8):
+                        # any other character among the flags is an unsupported format character (blanks of every kind included)
+                        s += cs.pick('\t\n\r\x0b\x0c\xa0') if cs.bool() else (gen_unsupported_char(cs) if not bytes_mode else chr(0x80 + cs.choice(0x80)))
                 w = cs.choice(8)
                 if w < 3:
                     s += str(cs.pick([0, 1, 2, 3, 5, 8, 10, 12, 17, 25, 40]))
